@@ -26,6 +26,7 @@ import KskmProofs.Lemmas.C19Inventory
 import KskmProofs.Lemmas.C19Listing
 import KskmProofs.Lemmas.C19Relookup
 import KskmProofs.Lemmas.C18Run
+import KskmProofs.Lemmas.KmHsmEq
 import KskmProofs.C14
 namespace Kskm.C19
 open Kskm.Km
@@ -969,5 +970,79 @@ example : (formatKeysStruct { hash := fun _ _ => none, verify := fun _ _ _ _ => 
       (tableOf exInfos)).toOption.map (fun L => ((pairPubs L).map (·.label), (leftover L ckoPublic).map (·.label),
         (leftover L ckoPrivate).map (·.label))) = some (["Ka"], ["Lonely"], ["Orphan"]) := by
   decide +kernel
+
+/-! ## The keymaster's token lookups ARE the signer's token lookups
+
+Kskm/Keymaster.lean writes `_p11_object_to_public_key`, `find_key_by_label` and `get_p11_key` as programs
+(`…P`) so that they can be run against a store; Kskm/Hsm.lean has the same repository functions as `TokM`
+computations, about which C15 / C04 / C01–C03 speak.  The two texts were tied to each other only through
+the code (both replay the emulator's log).  Here the tie is a theorem: the oracle interpretation `runTok` of
+each program EQUALS the `TokM` function — as functions of the token and the state, so result, final
+operation count and final log agree for every token oracle (any fault plan) and every starting state.
+(The `sessions` enumeration is not duplicated: the keymaster model reads `P11Module.sessions` as
+initialised by `P11Module.init` of Kskm/Hsm.lean.)  Lemmas: KskmProofs/Lemmas/KmHsmEq.lean. -/
+
+/-- `runTok` is a monad morphism from programs to `TokM` … -/
+theorem runTok_morphism {α β} (p : Prog α) (f : α → Prog β) (a : α) (op : TokOp) (e : Fail) :
+    (p >>= f).runTok = (p.runTok >>= fun x => (f x).runTok) ∧ (pure a : Prog α).runTok = (pure a : TokM α) ∧
+    (Prog.fail e : Prog α).runTok = TokM.fail e ∧ (askP op).runTok = Kskm.ask op ∧
+    (askOkP op).runTok = Kskm.askOk op :=
+  ⟨runTok_bind p f, rfl, rfl, runTok_askP op, runTok_askOkP op⟩
+
+/-- **… under which every lookup of kskm/misc/hsm.py that the keymaster model re-states is the `TokM`
+    function of Kskm/Hsm.lean.** -/
+theorem km_lookups_are_hsm_lookups :
+    (∀ a, (attr1P a).runTok = attr1 a) ∧ (∀ a, (attrBytesP a).runTok = attrBytes a) ∧
+    (∀ path slot handle, (p11ObjectToPublicKeyP path slot handle).runTok = p11ObjectToPublicKey path slot handle) ∧
+    (∀ m label cls hh slot h pk,
+      (foundKeyTailP m label cls hh slot h pk).runTok = foundKeyTail m label cls hh slot h pk) ∧
+    (∀ m label cls hh slot h, (foundKeyP m label cls hh slot h).runTok = foundKey m label cls hh slot h) ∧
+    (∀ m label cls hh slots, (findInSlotsP m label cls hh slots).runTok = findInSlots m label cls hh slots) ∧
+    (∀ label isPublic hh mods, (getP11KeyP label isPublic hh mods).runTok = getP11Key label isPublic hh mods) :=
+  ⟨runTok_attr1P, runTok_attrBytesP, runTok_p11ObjectToPublicKeyP, runTok_foundKeyTailP, runTok_foundKeyP,
+    runTok_findInSlotsP, runTok_getP11KeyP⟩
+
+/-- the same, spelled out for `get_p11_key`: for every token, state and arguments the keymaster's lookup
+    returns the signer's result and leaves the signer's operation count and log -/
+theorem km_getP11Key_is_hsm_getP11Key (label : String) (isPublic : Bool) (hh : Option Bool) (mods : List P11Module)
+    (tok : Token) (s : TokState) :
+    ((getP11KeyP label isPublic hh mods).runTok tok s).1 = (getP11Key label isPublic hh mods tok s).1 ∧
+    ((getP11KeyP label isPublic hh mods).runTok tok s).2.count = (getP11Key label isPublic hh mods tok s).2.count ∧
+    ((getP11KeyP label isPublic hh mods).runTok tok s).2.log = (getP11Key label isPublic hh mods tok s).2.log := by
+  rw [runTok_getP11KeyP]
+  exact ⟨rfl, rfl, rfl⟩
+
+/-- … likewise `find_key_by_label` on one module and `_p11_object_to_public_key` on one object -/
+theorem km_find_is_hsm_find (m : P11Module) (label : String) (cls : Nat) (hh : Option Bool) (slots : List Nat)
+    (path : String) (slot handle : Nat) (tok : Token) (s : TokState) :
+    (findInSlotsP m label cls hh slots).runTok tok s = findInSlots m label cls hh slots tok s ∧
+    (p11ObjectToPublicKeyP path slot handle).runTok tok s = p11ObjectToPublicKey path slot handle tok s := by
+  rw [runTok_findInSlotsP, runTok_p11ObjectToPublicKeyP]
+  exact ⟨rfl, rfl⟩
+
+/-- **A theorem about the `TokM` lookup is a theorem about the keymaster's** — here the operation-log
+    theorem of KskmProofs/Lemmas/Hsm.lean (`getP11Key_emits`, the basis of C04/C18's "no private-key
+    operation"): whatever the token answers, `get_p11_key` as the keymaster runs it issues only `findObjects`
+    / `getAttr` on the listed modules, never a `C_Sign`, and the counter advances by the number of logged
+    operations.  (C15's `find_first` / `find_duplicate` / `getP11Key_first_module` are carried over the same
+    way at the end of KskmProofs/C15.lean, where the store-backed token of C15 is in scope.) -/
+theorem km_getP11Key_reads_only (label : String) (isPublic : Bool) (hh : Option Bool) (mods : List P11Module)
+    (tok : Token) (s : TokState) :
+    ∃ l : List (TokOp × TokAns),
+      ((getP11KeyP label isPublic hh mods).runTok tok s).2.log = l ++ s.log ∧
+      ((getP11KeyP label isPublic hh mods).runTok tok s).2.count = s.count + l.length ∧
+      ∀ e ∈ l, IsReadAmong mods e.1 ∧ isSignOp e.1 = false := by
+  rw [runTok_getP11KeyP]
+  obtain ⟨l, h1, h2, h3⟩ := getP11Key_emits label isPublic hh mods tok s
+  exact ⟨l, h1, h2, fun e he => ⟨h3 e he, (h3 e he).not_sign⟩⟩
+
+/-- non-vacuity: on the two-slot example token's module list the two texts give the same answer to a
+    concrete oracle (every `findObjects` answered "one object, handle 7", every attribute read refused) -/
+example :
+    (getP11KeyP "Ka" true none exMods).runTok (fun _ op => match op with
+      | .findObjects .. => .handles [7] | _ => .error) {} =
+    getP11Key "Ka" true none exMods (fun _ op => match op with
+      | .findObjects .. => .handles [7] | _ => .error) {} := by
+  rw [runTok_getP11KeyP]
 
 end Kskm.C19
